@@ -99,6 +99,20 @@ def fam_norm(ctx, box, which):
                     'C18:length is not the non-negative root of a.a')
         st, l2 = call(lambda: abs(A))
         ctx.require(st == 'ok' and (near(l2, l, F(1, 10 ** 12)) if ctx.mode == 'conc' else l2 == l), 'C18:abs(v) != v.length()')
+        # length is a function of the current components: assign one through v[i] = x and measure again
+        b = ctx.param('b2', box[0], box[1])
+        A[2] = ctx.lib(b)
+        bb = a[0] * a[0] + a[1] * a[1] + b * b
+        ctx.assume(bb >= F(1, 10 ** 12))
+        st, l3 = call(A.length)
+        if st == 'raise':
+            ctx.fail('C18:length raises %s after a component was assigned' % exc_sig(l3))
+        ctx.require(And(l3 >= 0, near(l3 * l3, bb, F(1, 10 ** 9) * bb if ctx.mode == 'conc' else F(0)) if ctx.mode == 'conc' else (l3 * l3 == bb)),
+                    'C18:length after v[2] = x is not the root of the current a.a')
+        st, un = call(A.normalized)
+        if st == 'ok':
+            uu = un[0] * un[0] + un[1] * un[1] + un[2] * un[2]
+            ctx.require(near(uu, 1, F(1, 10 ** 9)), 'C18:|normalized(v)| != 1 after a component was assigned')
         ctx.outcome('length')
         return
     st, u = call(A.normalized if which == 'normalized' else A.unit)
